@@ -189,7 +189,17 @@ def gateObs (ws : List String) : String :=
   let kind : Option Bool := match kv ws "kind" with | some "pending" => some false | some "driver" => some false | some "fail" => some true | some "fail2" => some true | _ => none
   let hostOk := (match kv ws "lst" with | none => true | some l => l == "tcp" || (l == "uds" && (kv ws "listeners").isNone)) &&
     (match kv ws "sys" with | none => true | some v => v == "1") && !(driver && (kv ws "stop").isSome)
+  -- `burst=N` (kind=pending, no stop): N further connections queued while the service is Pending: all are served when it is ready
+  let burst : Option Nat := match kv ws "burst" with
+    | none => some 0
+    | some n => match n.toNat? with
+      | some n => if 1 ≤ n && n ≤ 200 && n.repr.length ≤ 9 && kv ws "kind" == some "pending" && (kv ws "stop").isNone && (kv ws "burst").all (·.length ≤ 9) then some n else none
+      | none => none
+  if burst.isNone then "bad-op" else
   if !hostOk then "bad-op" else
+  if burst.getD 0 > 0 then
+    (if (match kv ws "lst" with | some "uds" => (kv ws "listeners").isSome | _ => false) then "bad-op" else
+     s!"first=1 burst={burst.getD 0 + 1}/{burst.getD 0 + 1}") else
   -- `listeners=N at=K`: the gated service is the one of listener K of N: its own index, token and factory (no effect here)
   let lstOk := match kv ws "listeners", kv ws "at" with
     | none, none => true
@@ -261,6 +271,10 @@ def faultObs (ws : List String) : String :=
   let sysOk := (match kv ws "sys" with | none => true | some v => v == "1") && (match kv ws "facfail" with | none => true | some v => v == "1")
   if !sysOk then "bad-op" else
   let ff := kv ws "facfail" == some "1"
+  -- `victim=last`: the first fault hits the worker in the last handle slot (instance 2): the window connections are answered by instance 1
+  let victim : Option Bool := match kv ws "victim" with | none => some false | some "first" => some false | some "last" => some true | _ => none
+  if victim.isNone then "bad-op" else
+  let vl := victim == some true
   match sigs, prep with
   | none, _ | _, none => "bad-op"
   | some _, some pp =>
@@ -270,6 +284,7 @@ def faultObs (ws : List String) : String :=
   match gapOk, withStop, faults, limit, workers, pair, dropsrv with
   | true, some st, some fl, some lim, some wk, some pr, some ds =>
     let exact := lim.isNone && wk == 2
+    if vl && (!exact || kl != 0 || fl != 1 || pr || ds || bs || hd || sa || pp || ff) then "bad-op" else
     if ff && (!exact || kl != 0 || fl != 1 || st || pr || ds || bs || hd || sa || pp) then "bad-op" else
     if ff then
       -- the first restart attempt fails (`ServerCmd.serveFailing … 0`): logged, the loop goes on; the next fault is replaced
@@ -297,7 +312,7 @@ def faultObs (ws : List String) : String :=
     let run := ServerCmd.serve ServerCmd.srcWakeFirst wk ((List.replicate fl (ServerCmd.Call.faulted 0)) ++ (if st then [.stop true] else []))
     let restarts := (run.log.filter fun e => e == .restartWorker 0).length
     let second := if fl == 2 then s!" killed2=- replaced2={bit (restarts ≥ 2)} later2-all-served=1" else ""
-    let head := if exact then s!"before=12 killed=- window=22 replaced={bit (restarts ≥ 1)} later-all-served=1"
+    let head := if exact then s!"before=12 killed=- window={if vl then "11" else "22"} replaced={bit (restarts ≥ 1)} later-all-served=1"
                 else s!"before=2/2 killed=- replaced={bit (restarts ≥ 1)} later-all-served=1"
     let stop := if st then
         let waited := (List.range wk).all fun w => run.log.contains (.awaitWorker w)
@@ -312,7 +327,8 @@ def sigObs (ws : List String) : String :=
   let rtOk := (match kv ws "rt" with | none => true | some r => r == "system" || r == "tokio") &&
     (match kv ws "lst" with | none => true | some l => l == "tcp" || l == "udsa") &&
     (match kv ws "to" with | none => true | some t => t == "process" || t == "acceptor") &&
-    (match kv ws "usr1" with | none => true | some v => v == "1")
+    (match kv ws "usr1" with | none => true | some v => v == "1") &&
+    (match kv ws "pre" with | none => true | some v => v == "1")
   -- `usr1=1`: a harmless signal handled on the accept thread leaves the accept loop as it is (an interrupted poll is no event)
   let serves := if kv ws "usr1" == some "1" then " serves=1" else ""
   -- `emfile=1 [storm=<ms>x<n>]`: a back-off after an accept error expires 500 ms after the error whatever wakes the poll
